@@ -123,7 +123,7 @@ func c13ObjectProgram(s Src) (string, *C13Expect) {
 	n := s.Int("nstmts", 2, 8)
 	terminal := false
 	for i := 0; i < n && !terminal; i++ {
-		switch s.Int("stmt", 0, 14) {
+		switch s.Int("stmt", 0, 15) {
 		case 0, 1: // literal whose initialisers print tags
 			keys := drawKeys(s.Int("nk", 2, 6))
 			var parts []string
@@ -194,6 +194,15 @@ func c13ObjectProgram(s Src) (string, *C13Expect) {
 			setKeys(nobj, keys...)
 			ls = append(ls, fmt.Sprintf("%s ob%d = {%s: tag(%d, 1), %s: tag(%d, 2), %s: tag(%d, 3), %s: tag(%d, 4), %s: tag(%d, 5)};", KwVar, nobj, keys[0], ntag-4, keys[1], ntag-3, keys[0], ntag-2, keys[1], ntag-1, keys[2], ntag),
 				fmt.Sprintf("%s %s(ob%d);", KwPrint, FnValues, nobj))
+		case 15: // an object holding both spellings of one canonically equivalent name; one of them is deleted
+			nobj++
+			a, b := "\u099b\u09cb\u099f", "\u099b\u09c7\u09be\u099f"
+			if Bool(s, "swapspell") {
+				a, b = b, a
+			}
+			setKeys(nobj, b, "zeta")
+			ls = append(ls, fmt.Sprintf("%s ob%d = {%s: 1, zeta: 3, %s: 2};", KwVar, nobj, a, b), fmt.Sprintf("%s(ob%d, \"%s\");", FnDelete, nobj, a),
+				fmt.Sprintf("%s %s(ob%d);", KwPrint, FnValues, nobj), fmt.Sprintf("%s ob%d;", KwPrint, nobj))
 		case 14: // delete one of the (possibly canonically equivalent) names of an object, then list it
 			if nobj == 0 {
 				continue
